@@ -1006,6 +1006,15 @@ impl Engine for C14 {
         explicit(case)
     }
 
+    fn isolate_every(&self, unit: &UnitSpec) -> Option<u64> {
+        // answers must not depend on namespaces queried earlier in the same process
+        if unit.name.starts_with("bulk:") {
+            None
+        } else {
+            Some(32)
+        }
+    }
+
     fn rule(&self) -> String {
         "seeded search: (taxonomy: generated acyclic defs with diamonds, conjuncts, feature keys, undefined supertypes, choices, tagOn, a transitive relationship; or the shipped defs.zinc) x (1-16 threads x 1-20 queries biased to overlapping symbols; 1 thread = sequential history with warm-up prefix and permutation) x (scheduler: seeded random or PCT depth 1-5 owning every shard-lock operation) x (shard count 2/4/16/64, hasher seed); oracle: every answer equals a fresh cold single-threaded namespace's, no panic, no deadlock, bounded steps; non-trivial = at least one context switch between runnable threads happened (or a multi-query sequential history); distinct = distinct (defs, threads, knobs, realised interleaving) - the realised schedule is recorded at every scheduling point and hashed".into()
     }
